@@ -36,12 +36,15 @@ namespace BitSerializer
 			size_t loadedItems = 0;
 			for (auto it = cont.begin(); it != cont.end() && !archive.IsEnd(); ++it, ++loadedItems)
 			{
+				// An item that is not loaded (null, skipped by policy) is a default item, not a copy of the previous one
+				value = false;
 				Serialize(archive, value);
 				*it = value;
 			}
 			// Load all left items
 			for (; !archive.IsEnd(); ++loadedItems)
 			{
+				value = false;
 				Serialize(archive, value);
 				cont.push_back(value);
 			}
